@@ -103,6 +103,41 @@ func canonShapeOnce(s string) string {
 				}
 			}
 		}
+		// a dynamic piece that is a string concatenation is the sequence of its operands: ⟨(A + "x")⟩ is ⟨A⟩ "x",
+		// and strings.Concat(sep, xs) among them is the join piece
+		if strings.HasPrefix(s[i:], "⟨(") && (i == 0 || s[i-1] == ' ' || s[i-1] == '{') {
+			if end := matchingPiece(s, i); end > 0 {
+				inner := s[i+len("⟨") : end]
+				if matchingClose(inner, 0) == len(inner)-1 {
+					if ps := splitTopStr(inner[1:len(inner)-1], " + "); len(ps) >= 2 {
+						var out []string
+						for _, p := range ps {
+							p = strings.TrimSpace(p)
+							switch {
+							case strings.HasPrefix(p, `"`) && skipQuoted(p, 0) == len(p):
+								out = append(out, p)
+							case strings.HasPrefix(p, "strings.Concat(") && matchingClose(p, len("strings.Concat")) == len(p)-1:
+								as := splitTop(p[len("strings.Concat("):len(p)-1], ',')
+								if len(as) == 2 {
+									sep := strings.TrimSpace(as[0])
+									if !strings.HasPrefix(sep, `"`) {
+										sep = "⟨" + sep + "⟩"
+									}
+									out = append(out, "join("+sep+"; "+strings.TrimSpace(as[1])+")")
+								} else {
+									out = append(out, "⟨"+p+"⟩")
+								}
+							default:
+								out = append(out, "⟨"+p+"⟩")
+							}
+						}
+						b.WriteString(canonShapeOnce(strings.Join(out, " ")))
+						i = end + len("⟩")
+						continue
+					}
+				}
+			}
+		}
 		// a conditional piece of an emission template: ?(not(C)){A}{B} is ?(C){B}{A}
 		if c == '?' && i+1 < len(s) && s[i+1] == '(' {
 			if cl := matchingClose(s, i+1); cl > 0 && cl+1 < len(s) && s[cl+1] == '{' {
@@ -241,6 +276,31 @@ func hoistCommonSuffix(arms []string) ([]string, string) {
 		}
 	}
 	return res, " " + strconv.Quote(common)
+}
+
+// matchingPiece: the index of the ⟩ that closes the ⟨ at s[i:], or -1.
+func matchingPiece(s string, i int) int {
+	depth := 0
+	for j := i; j < len(s); {
+		switch {
+		case s[j] == '"' || s[j] == '`':
+			j = skipQuoted(s, j)
+			continue
+		case strings.HasPrefix(s[j:], "⟨"):
+			depth++
+			j += len("⟨")
+			continue
+		case strings.HasPrefix(s[j:], "⟩"):
+			depth--
+			if depth == 0 {
+				return j
+			}
+			j += len("⟩")
+			continue
+		}
+		j++
+	}
+	return -1
 }
 
 func isWordChar(p byte) bool {
